@@ -85,13 +85,23 @@ func (sgi ShardGroupInfo) getShardsAndSeriesKeyForHintQuery(tagsGroup *influx.Po
 	sort.Sort(tagsGroup)
 	r := influx.Row{Name: mst.Name, Tags: *tagsGroup}
 	r.UnmarshalIndexKeys(nil)
-	r.UnmarshalShardKeyByTag(nil)
-	if len(ski.ShardKey) > 0 {
-		r.ShardKey = r.ShardKey[len(mst.Name)+1:]
+	// rows are placed by the shard-key tags only (all tags if there is no shard key),
+	// so the shard is derived from them exactly as the write path does
+	if err := r.UnmarshalShardKeyByTag(ski.ShardKey); err != nil {
+		return sgi.genShardInfosByIndex(aliveShardIdxes), r.IndexKey
 	}
 	// Force the query to be broadcast
 	if sysconfig.GetEnableForceBroadcastQuery() == sysconfig.OnForceBroadcastQuery {
 		return sgi.genShardInfosByIndex(aliveShardIdxes), r.IndexKey
+	}
+	if ski.Type == RANGE {
+		if shard := sgi.DestShard(string(r.ShardKey)); shard != nil {
+			return append(shards, *shard), r.IndexKey
+		}
+		return sgi.genShardInfosByIndex(aliveShardIdxes), r.IndexKey
+	}
+	if len(ski.ShardKey) > 0 {
+		r.ShardKey = r.ShardKey[len(mst.Name)+1:]
 	}
 	var shardIdxes []int
 	if mst.InitNumOfShards == 0 {
